@@ -127,6 +127,74 @@ def dualReadIdx (s : State) (k : Nat) : GoResult Bytes :=
   | .ok d => .ok d
   | _ => s.pri.readIdx k
 
+/-! ### reads with the error CLASS callers branch on
+
+`PartitionLog.RestoreFromS3` skips a segment as orphaned exactly when `errors.Is(err, storage.ErrNotFound)` holds for
+the index read; every other error aborts the restore (and is retried).  So the class of a failed read is an
+observable of the S3 client: `notFound` (the backend says the object does not exist) vs `failed` (fault injected /
+5xx / network / timeout / bad range). -/
+
+/-- result of a download with the class of its error -/
+inductive RRes where
+  | ok (d : Bytes)
+  | notFound
+  | failed
+deriving Repr, DecidableEq
+
+/-- forget the class -/
+def RRes.toGo : RRes → GoResult Bytes
+  | .ok d => .ok d
+  | _ => .err
+
+def RRes.isOk : RRes → Bool
+  | .ok _ => true
+  | _ => false
+
+/-- one backend's `DownloadSegment`, classified: an injected fault or a bad range is `failed`, a missing object `notFound` -/
+def Bucket.readSegC (b : Bucket) (k : Nat) (r : Option Rng) : RRes :=
+  if b.failing k then .failed
+  else match b.seg k with
+    | some d => match rangeRead d r with
+      | .ok x => .ok x
+      | _ => .failed
+    | none => .notFound
+
+/-- one backend's `DownloadIndex`, classified -/
+def Bucket.readIdxC (b : Bucket) (k : Nat) : RRes :=
+  if b.failing k then .failed
+  else match b.idx k with
+    | some d => .ok d
+    | none => .notFound
+
+/-- `dualS3Client.DownloadSegment` with error classes: `return d.write.DownloadSegment(…)` hands the caller the PRIMARY's
+error value, whatever the replica's error was. -/
+def dualReadSegC (s : State) (k : Nat) (r : Option Rng) : RRes :=
+  match s.rep.readSegC k r with
+  | .ok d => .ok d
+  | _ => s.pri.readSegC k r
+
+/-- `dualS3Client.DownloadIndex` with error classes. -/
+def dualReadIdxC (s : State) (k : Nat) : RRes :=
+  match s.rep.readIdxC k with
+  | .ok d => .ok d
+  | _ => s.pri.readIdxC k
+
+/-- NOT the code: a dual index read that reports BOTH errors joined (`fmt.Errorf("replica: %w; primary: %w")`) when both
+reads fail — `errors.Is(·, ErrNotFound)` is then true as soon as EITHER side said not-found. -/
+def dualReadIdxJoined (s : State) (k : Nat) : RRes :=
+  match s.rep.readIdxC k with
+  | .ok d => .ok d
+  | re => match s.pri.readIdxC k with
+    | .ok d => .ok d
+    | pe => if re = .notFound ∨ pe = .notFound then .notFound else .failed
+
+/-- what `RestoreFromS3` does with a listed, not yet committed segment given its index read: `some true` = keep it,
+`some false` = skip it as orphaned (only for not-found), `none` = abort the restore with the error -/
+def restoreDecision : RRes → Option Bool
+  | .ok _ => some true
+  | .notFound => some false
+  | .failed => none
+
 /-- a dual-client method that is `return d.write.<Method>(…)`: the primary's answer (value or error) is the
 answer, the primary's new state is the new state, the replica is not involved -/
 def onPrimary {α} (s : State) (f : Bucket → Bucket × GoResult α) : State × GoResult α :=
